@@ -57,6 +57,8 @@ TIERS = {
                   sim=dict(sim_restart=80, sim_rekey=60, sim_impostor=60, sim_mixed=40)),
     "thorough": dict(mc=[("base-live", "Channel_base.cfg", 4), ("accept", "Channel_accept.cfg", 2), ("accept2", "Channel_accept2.cfg", 1),
                          ("restart-safe", "Channel_restart_safe.cfg", 6), ("restart-live", "Channel_restart.cfg", 6)],
+                     # Channel_restart_deep.cfg (MaxSendCalls = 2: 866 k states, 10 M transitions, 68 min on 8 workers, passes) is
+                     # not part of a tier; run it with: python3 -c "from vlib import core; core.tlc('Channel','Channel_restart_deep.cfg',workers=8,timeout=9000)"
                      sim=dict(sim_restart=800, sim_rekey=600, sim_impostor=600, sim_mixed=500)),
 }
 
